@@ -62,3 +62,16 @@ Theorem C16_dense :
     forall t, (t + dhor p <= e)%Z -> rhoZ AR pk W2 tend2 p t = rhoZ AR pk W1 tend1 p t.
 Proof. exact (fun VS AR pk W1 W2 tend1 tend2 e p => rhoZ_extend AR pk W1 W2 tend1 tend2 e p). Qed.
 Print Assumptions C16_dense.
+
+(* the same for the lists the dense-time offline visitor builds (model DenseVisitor.deval) *)
+From RV Require Import DenseMergeCorrect DenseEvalCorrect DenseVisitor DenseEvalMain DenseVisitorLaws.
+Theorem C16_dense_visitor :
+  forall (VS : Val) (AR : Arith VS), (forall l r, neg (a2 AR Sub l r) = a2 AR Sub r l) ->
+  forall (W1 W2 : list dsig) (tend1 tend2 e : Z) (p : formula),
+    (0 <= tend1)%Z -> (0 <= tend2)%Z -> wfW W1 tend1 -> wfW W2 tend2 -> length W1 = length W2 ->
+    (forall x t, (t <= e)%Z -> den (nth x W2 []) t = den (nth x W1 []) t) ->
+    dfrag p = true -> dbounded p = true -> wf_bounds p = true -> (nvars p <= length W1)%nat ->
+    exists s1 s2, deval AR p W1 = Some s1 /\ deval AR p W2 = Some s2 /\
+      forall t, (t + dhor p <= e)%Z -> den_opt s2 t = den_opt s1 t.
+Proof. intros VS AR SN W1 W2 tend1 tend2 e p. exact (visitor_extend AR SN W1 W2 tend1 tend2 e p). Qed.
+Print Assumptions C16_dense_visitor.
